@@ -150,13 +150,14 @@ package system
 //
 // ---- C10: containment used by the set functions ------------------------------------------
 //@ func Equal(lhs, rhs) (res)
-//@   requires lhs != nil && rhs != nil && validSys(lhs) && validSys(rhs)
+//@   requires lhs != nil && rhs != nil
+//@   assuming validSys(lhs) && validSys(rhs)
 //@   defines res == sysEq(lhs, rhs)
 //@   ensures res == (eq3(lhs, rhs) == 0)
 //@   assigns nothing
 //
 //@ func (c Collection) containsSystem(value) (res)
-//@   requires validColl(c) && value != nil && validSys(value) && validSysColl(c)
+//@   requires validColl(c) && value != nil
 //@   ensures res == (exists k int :: 0 <= k && k < len(c) && fromOk(c[k]) && sysEq(fromS(c[k]), value))
 //@   loop 1 (i):
 //@     invariant 0 <= i && i <= len(c)
@@ -171,7 +172,7 @@ package system
 //@   assigns nothing
 //
 //@ func (c Collection) Contains(value) (res)
-//@   requires validColl(c) && validSysColl(c) && validItem(value) && (fromOk(value) ==> validSys(fromS(value)))
+//@   requires validColl(c) && validItem(value)
 //@   ensures res == containsS(c, value)
 //@   assigns nothing
 //
@@ -195,8 +196,8 @@ package system
 //@   assigns nothing
 //
 //@ func (d Date) TryEqual(input) (eq, has)
-//@   requires validDateT(d.date, d.l)
-//@   requires istype(input, Date) ==> validDateT(unbox(input, Date).date, unbox(input, Date).l)
+//@   assuming validDateT(d.date, d.l)
+//@   assuming istype(input, Date) ==> validDateT(unbox(input, Date).date, unbox(input, Date).l)
 //@   let o = unbox(input, Date)
 //@   ensures !istype(input, Date) ==> has && !eq
 //@   ensures istype(input, Date) ==> has == (cmpDate(d.date, d.l, o.date, o.l) != CMP_EMPTY)
@@ -207,8 +208,8 @@ package system
 //@   assigns nothing
 //
 //@ func (d Date) Less(input) (res, err)
-//@   requires validDateT(d.date, d.l)
-//@   requires istype(input, Date) ==> validDateT(unbox(input, Date).date, unbox(input, Date).l)
+//@   assuming validDateT(d.date, d.l)
+//@   assuming istype(input, Date) ==> validDateT(unbox(input, Date).date, unbox(input, Date).l)
 //@   let o = unbox(input, Date)
 //@   ensures !istype(input, Date) ==> is(err, ErrTypeMismatch) && !is(err, ErrMismatchedPrecision) && !is(err, ErrMismatchedUnit)
 //@   ensures istype(input, Date) && cmpDate(d.date, d.l, o.date, o.l) == CMP_EMPTY ==> is(err, ErrMismatchedPrecision)
@@ -223,8 +224,8 @@ package system
 //@   assigns nothing
 //
 //@ func (t Time) TryEqual(input) (eq, has)
-//@   requires validTimeT(t.time, t.l)
-//@   requires istype(input, Time) ==> validTimeT(unbox(input, Time).time, unbox(input, Time).l)
+//@   assuming validTimeT(t.time, t.l)
+//@   assuming istype(input, Time) ==> validTimeT(unbox(input, Time).time, unbox(input, Time).l)
 //@   let o = unbox(input, Time)
 //@   ensures !istype(input, Time) ==> has && !eq
 //@   ensures istype(input, Time) ==> has == (cmpTime(t.time, t.l, o.time, o.l) != CMP_EMPTY)
@@ -235,8 +236,8 @@ package system
 //@   assigns nothing
 //
 //@ func (t Time) Less(input) (res, err)
-//@   requires validTimeT(t.time, t.l)
-//@   requires istype(input, Time) ==> validTimeT(unbox(input, Time).time, unbox(input, Time).l)
+//@   assuming validTimeT(t.time, t.l)
+//@   assuming istype(input, Time) ==> validTimeT(unbox(input, Time).time, unbox(input, Time).l)
 //@   let o = unbox(input, Time)
 //@   ensures !istype(input, Time) ==> is(err, ErrTypeMismatch) && !is(err, ErrMismatchedPrecision) && !is(err, ErrMismatchedUnit)
 //@   ensures istype(input, Time) && cmpTime(t.time, t.l, o.time, o.l) == CMP_EMPTY ==> is(err, ErrMismatchedPrecision)
@@ -251,8 +252,8 @@ package system
 //@   assigns nothing
 //
 //@ func (dt DateTime) TryEqual(input) (eq, has)
-//@   requires validDTT(dt.dateTime, dt.l)
-//@   requires istype(input, DateTime) ==> validDTT(unbox(input, DateTime).dateTime, unbox(input, DateTime).l)
+//@   assuming validDTT(dt.dateTime, dt.l)
+//@   assuming istype(input, DateTime) ==> validDTT(unbox(input, DateTime).dateTime, unbox(input, DateTime).l)
 //@   let o = unbox(input, DateTime)
 //@   ensures !istype(input, DateTime) ==> has && !eq
 //@   ensures istype(input, DateTime) ==> has == (cmpDT(dt.dateTime, dt.l, o.dateTime, o.l) != CMP_EMPTY)
@@ -263,8 +264,8 @@ package system
 //@   assigns nothing
 //
 //@ func (dt DateTime) Less(input) (res, err)
-//@   requires validDTT(dt.dateTime, dt.l)
-//@   requires istype(input, DateTime) ==> validDTT(unbox(input, DateTime).dateTime, unbox(input, DateTime).l)
+//@   assuming validDTT(dt.dateTime, dt.l)
+//@   assuming istype(input, DateTime) ==> validDTT(unbox(input, DateTime).dateTime, unbox(input, DateTime).l)
 //@   let o = unbox(input, DateTime)
 //@   ensures !istype(input, DateTime) ==> is(err, ErrTypeMismatch) && !is(err, ErrMismatchedPrecision) && !is(err, ErrMismatchedUnit)
 //@   ensures istype(input, DateTime) && cmpDT(dt.dateTime, dt.l, o.dateTime, o.l) == CMP_EMPTY ==> is(err, ErrMismatchedPrecision)
@@ -312,7 +313,8 @@ package system
 // system.TryEqual against the reference equality eq3: 0 equal, 1 not equal, 2 empty
 //@ func TryEqual(lhs, rhs) (eq, has)
 //@   cumulative
-//@   requires lhs != nil && rhs != nil && validSys(lhs) && validSys(rhs)
+//@   requires lhs != nil && rhs != nil
+//@   assuming validSys(lhs) && validSys(rhs)
 //@   ensures has == (eq3(lhs, rhs) != 2)
 //@   ensures has && isBoolV(lhs) ==> eq == (eq3(lhs, rhs) == 0)
 //@   ensures has && isStringV(lhs) ==> eq == (eq3(lhs, rhs) == 0)
@@ -339,8 +341,8 @@ package system
 // result empty.
 //@ func (c Collection) TryEqual(other) (eq, has)
 //@   requires validColl(c) && validColl(other)
-//@   requires forall k int :: 0 <= k && k < len(c) && fromOk(c[k]) ==> validSys(fromS(c[k]))
-//@   requires forall k int :: 0 <= k && k < len(other) && fromOk(other[k]) ==> validSys(fromS(other[k]))
+//@   let valid = (forall k int :: 0 <= k && k < len(c) && fromOk(c[k]) ==> validSys(fromS(c[k]))) && (forall k int :: 0 <= k && k < len(other) && fromOk(other[k]) ==> validSys(fromS(other[k])))
+//@   assuming valid
 //@   requires forall k int :: 0 <= k && k < len(c) && !isPrimS(c[k]) ==> implements(c[k], fhir.Base)
 //@   requires forall k int :: 0 <= k && k < len(other) && !isPrimS(other[k]) ==> implements(other[k], fhir.Base)
 //@   ensures len(c) != len(other) ==> has && !eq
@@ -349,7 +351,7 @@ package system
 //@   ensures !has ==> !eq
 //@   loop 1 (i):
 //@     invariant 0 <= i && i <= len(other) && len(c) == len(other)
-//@     invariant forall k int :: 0 <= k && k < i ==> itemEq3(c[k], other[k]) == 0
+//@     invariant valid ==> (forall k int :: 0 <= k && k < i ==> itemEq3(c[k], other[k]) == 0)
 //@     instantiate normTwice(fromS(c[i]), fromS(other[i]))
 //@     reveal itemEq3(c[i], other[i])
 //@   assigns nothing
